@@ -33,6 +33,14 @@ def check_site(ctx, S):
     else:
         Rsel = rows
     kindL, L, red, _ = _rej.normaliser(S.acc["arg"])
+    # positions in L must be evaluation positions: L is the unfiltered result of the likelihood evaluation (or its accumulation)
+    if L is not None:
+        if S.iterative:
+            okL = isinstance(L, ast.Call) and (A.call_name(L) or "").split(".")[-1] == "concatenate" and "@loop" in A.unparse(L)
+        else:
+            okL = isinstance(L, ast.Call) and (A.call_name(L) or "").split(".")[-1].startswith("marginal_ln_likelihood")
+        ctx.check(R, S.acc_stmt, "%s: accepted positions are evaluation positions (likelihood array not filtered / compacted)" % q, okL,
+                  "the accepted positions index `%s`, a filtered or re-indexed copy of the evaluated likelihoods: they no longer address the rows / ln_prior values of the library" % A.unparse(L)[:70], key=q + ":space-L")
     shapes = _rej.idx_shape(Rsel)
     # G versions used to build the samples (per IfExp leaf)
     def g_of(shape):
@@ -189,6 +197,12 @@ def run(ctx):
     from .C14 import check_chain
     for mod, name in _rej.SITES[2:]:
         check_chain(ctx, _rej.analyze(ctx.prog, mod, name), R="C06-CHAIN")
+    ctx.rule("C06-PART", "file paths: the batches handed to the pool partition the evaluated rows exactly once and in order, so position i of the concatenated result is "
+                         "row i of the request (shared implementation with C16).")
+    from .C16 import check_batch_tasks, check_run_worker
+    from .C07 import _Relabel
+    check_batch_tasks(_Relabel(ctx, {"C16-P": "C06-PART"}))
+    check_run_worker(_Relabel(ctx, {"C16-RUN": "C06-PART"}))
     ctx.floor("C06-FIELD", ctx.count("C06-FIELD"), 2)
     check_api(ctx)
     ctx.assume("numpy fancy indexing and tables.read_coordinates return rows in the order of the index array")
